@@ -85,12 +85,32 @@ def abstract_archive(ar):
 LABELS = [None, None, 'x', 'mass', 'V_out', 'a b', '', 'R"1"', 'back\\slash', 'tab\there', 'line\nbreak',
           'café', '中文', '\U0001F600', 'del\x7f', 'ctl\x01', '<&>', "it's", '"version": "x"', ' ']
 XML_SAFE_LABELS = [l for l in LABELS if l is None or (l != '' and not any(ord(c) < 32 and c not in '\t\n' for c in l))]
+XML_INTL_LABELS = [None, 'caf\u00e9 \u00b5m', '\u4e2d\u6587', '\u03a9_ref', '\u00f1', '\U0001F600', 'x', 'a b', '\u00e5\u00df\u20ac', '<\u00e9&>']
 TAGCHARS = 'abcdefghijklmnopqrstuvwxyzABCXYZ_0123456789'
+
+# identifier-like tags that are also words of the storage formats (JSON member / class names, XML element and
+# attribute names, literals, component suffixes): the property covers them like any other identifier
+RESERVED_TAGS = ['CLASS', 'Archive', 'Vector', 'LeafNode', 'ElementaryReal', 'IntermediateReal', 'Complex', 'uid', 'version',
+                 'leaf_nodes', 'tagged_real', 'tagged_complex', 'untagged_real', 'intermediate_uids', 'x', 'u', 'df', 'label',
+                 'independent', 'complex', 'correlation', 'ensemble', 'value', 'index', 'u_components', 'd_components',
+                 'i_components', 'n_re', 'n_im', 'gtcArchive', 'leafNodes', 'leafNode', 'taggedReals', 'untaggedReals',
+                 'taggedComplexes', 'intermediates', 'intermediate', 'elementaryReal', 'intermediateReal', 'component',
+                 'uComponents', 'dComponents', 'iComponents', 'real', 'imag', 'node', 'tag', 'xmlns', 'xml', 'a_re', 'a_im',
+                 'x_re', 'x_im', '_re', '_im', 'z_re_im', 'None', 'null', 'true', 'false', 'nan', 'inf', 'INF', 'NaN',
+                 'Infinity', 'items', 'keys', 'self', 'additionalProperties', 'properties', 'type']
+
+def tag_free(t, used):
+    """no clash with a tag in use, nor with the names t_re / t_im under which complex components are filed"""
+    if t in used or t + '_re' in used or t + '_im' in used: return False
+    return not any(t in (u + '_re', u + '_im') for u in used)
 
 def rand_tag(rng, used):
     while True:
-        t = rng.choice('abcxyzRVm_QZ') + ''.join(rng.choice(TAGCHARS) for _ in range(rng.choice([0, 0, 1, 2, 5, 12])))
-        if t not in used and t + '_re' not in used and t + '_im' not in used and not any(u in (t + '_re', t + '_im') for u in used):
+        if rng.random() < 0.3:
+            t = rng.choice(RESERVED_TAGS)
+        else:
+            t = rng.choice('abcxyzRVm_QZ') + ''.join(rng.choice(TAGCHARS) for _ in range(rng.choice([0, 0, 1, 2, 5, 12])))
+        if tag_free(t, used):
             used.add(t); return t
 
 def rand_val(rng):
@@ -102,6 +122,27 @@ def rand_u(rng):
 
 def rand_df(rng):
     return rng.choice([math.inf, math.inf, 1, 1.0, 2.5, 7, 30, 1e6, 3.000000001, 250000.0, 100000.5])
+
+def reserved_archive(kind, ctx_id, words=None):
+    """every reserved word as a tag at once: kind 'real' (elementary reals), 'complex' (elementary complexes, so the
+    names w_re / w_im are filed too) or 'interm' (real intermediate results).  -> (archive, tags, {tag: object})"""
+    from GTC import core, archive as garchive
+    new_context(ctx_id)
+    used = set(); items = {}
+    base = core.ureal(2.0, 0.5, 7, label='base')
+    for i, w in enumerate(words or RESERVED_TAGS):
+        if not tag_free(w, used): continue
+        used.add(w)
+        if kind == 'real':
+            items[w] = core.ureal(1.0 + i, 0.25, 5 + i, label=w)
+        elif kind == 'complex':
+            items[w] = core.ucomplex(complex(i, -i), (0.5, 0.25), 4 + i, label=w)
+        else:
+            items[w] = core.result(base * (i + 1.5) + 1, label=w)
+    ar = garchive.Archive()
+    for k, v in items.items():          # item assignment: add(self=...) is not expressible as a keyword
+        ar[k] = v
+    return ar, list(items), items
 
 def build_archive(rng, ctx_id, labels=LABELS):
     """a random session in Context(id=ctx_id) and an Archive holding a random selection of its objects.
@@ -158,7 +199,7 @@ def build_archive(rng, ctx_id, labels=LABELS):
     for kind, obj in keep:
         items[rand_tag(rng, used)] = obj
     # half through add(**kw), half through item assignment
-    if rng.random() < 0.5:
+    if rng.random() < 0.5 and 'self' not in items:     # add(self=...) cannot be written as a keyword argument
         ar.add(**items)
     else:
         for k, v in items.items():
@@ -203,10 +244,14 @@ PREFIX_BOUNDS = [64, 65, 90, 91, 94, 95, 96, 97, 122, 123, 44, 45, 46, 47, 48, 5
 def rand_prefix(rng):
     return ''.join(chr(rng.choice(PREFIX_BOUNDS)) for _ in range(rng.choice([1, 1, 2, 2, 3])))
 
-XML_ENCODINGS = [None, 'utf-8', 'unicode', 'us-ascii']
+# utf-16 carries a byte-order mark; the 8-bit ones need the declaration ElementTree writes unless told not to:
+# xml_declaration=False with a non-ASCII-transparent text is not a self-describing document (reported, kept out)
+XML_ENCODINGS = [None, 'utf-8', 'unicode', 'us-ascii', 'utf-16', 'iso-8859-1', 'cp1252', 'ascii']
+NEEDS_DECLARATION = ('iso-8859-1', 'cp1252')
 XML_DECLS = [None, True, False]
 XML_GRID = [dict(indent=i, prefix=p, encoding=e, xml_declaration=d, short_empty_elements=s)
-            for i in XML_INDENTS for p in XML_PREFIXES for e in XML_ENCODINGS for d in XML_DECLS for s in (True, False)]
+            for i in XML_INDENTS for p in XML_PREFIXES for e in XML_ENCODINGS for d in XML_DECLS for s in (True, False)
+            if not (e in NEEDS_DECLARATION and d is False)]
 
 def xml_kwargs(o):
     kw = {}
